@@ -28,6 +28,25 @@ class Addr:
         self.expiry = None
         self.expires = None
         self.created = None
+        self._ip_key = None
+
+    def _index_ip(self, key):
+        """
+        Keep the map's by-address entry in step with this mapping:
+        ``key`` is the address we map to now (None if we map to
+        nothing any more). An address we no longer map to is handed
+        over to another live mapping that has it, or dropped.
+        """
+        old = self._ip_key
+        if old is not None and old != key and self.map.addr.get(old) is self:
+            del self.map.addr[old]
+            for other in list(self.map.addr.values()):
+                if other is not self and other._ip_key == old:
+                    self.map.addr[old] = other
+                    break
+        self._ip_key = key
+        if key is not None:
+            self.map.addr[key] = self
 
     def update(self, *args):
         """
@@ -61,6 +80,7 @@ class Addr:
             if self.map.addr.get(self.name, None) is self:
                 self._expire()
             return
+        self._index_ip(ip)
 
         fmt = "%Y-%m-%d %H:%M:%S"
 
@@ -86,6 +106,7 @@ class Addr:
         callback done via callLater
         """
         del self.map.addr[self.name]
+        self._index_ip(None)
         self.map.notify("addrmap_expired", *[self.name], **{})
 
 
@@ -120,9 +141,8 @@ class AddrMap(object):
 
         else:
             a = Addr(self)
-            # add both name and IP address
+            # update() adds the IP address as well
             self.addr[params[0]] = a
-            self.addr[params[1]] = a
             a.update(*params)
             self.notify("addrmap_added", *[a], **{})
 
